@@ -29,6 +29,12 @@ ASSUMPTIONS = [
 ]
 
 
+def _is_53(resp) -> bool:
+    """A refusal 'with status 53': one header line with that status; the wording is the implementation's."""
+    return (isinstance(resp, str) and resp.startswith("53 ") and resp.endswith("\r\n")
+            and "\r" not in resp[:-2] and "\n" not in resp[:-2] and len(resp[3:-2].encode()) <= 1024)
+
+
 def to_int(addr: str):
     """(family, int) via inet_pton, or None."""
     for fam, n in ((socket.AF_INET, 4), (socket.AF_INET6, 16)):
@@ -278,7 +284,7 @@ def decide_all(case):
                 if allow:
                     out.append("admit")
                 else:
-                    out.append("refuse" if resp == "53 Access denied\r\n" else "refuse-wrong-response:" + repr(resp))
+                    out.append("refuse" if _is_53(resp) else "refuse-wrong-response:" + repr(resp))
             return out
 
         return vloop.run(go)
@@ -293,7 +299,7 @@ def decide_all(case):
             out = []
             for p in case["peers"]:
                 allow, resp = await ac.process_request("gemini://localhost/", p, None)
-                out.append("admit" if allow else ("refuse" if resp == "53 Access denied\r\n" else "refuse-wrong-response"))
+                out.append("admit" if allow else ("refuse" if _is_53(resp) else "refuse-wrong-response"))
             return out
 
         return vloop.run(go)
